@@ -4,6 +4,7 @@ import DW.Driver.Strings
 import DW.Driver.Core
 import DW.Driver.Caches
 import DW.Driver.Conc
+import DW.Driver.C17
 
 open Lean DW.Driver
 
@@ -16,6 +17,7 @@ def dispatch (j : Json) : Except String Json := do
   | "loadv1" => handleLoadV1 j
   | "caches" => handleCaches j
   | "conc" => handleConc j
+  | "c17" => handleC17 j
   | x => throw s!"unknown op {x}"
 
 def handleLine (line : String) : String :=
